@@ -296,6 +296,9 @@ def wrap_fn(stepper, wrap):
         return ex.repeat(stepper, 3)
     if wrap == "repeated_stepper3":
         return ex.RepeatedStepper(stepper, 3)
+    if wrap == "forced_repeated2":      # the forced wrapper reads the effective dt of the repeated stepper: d/d(dt) must flow through it
+        fr = ex.ForcedStepper(ex.RepeatedStepper(stepper, 2))
+        return lambda u: fr(u, 0.3 * jnp.roll(u, 1, axis=-1) + 0.1)
     raise KeyError(wrap)
 
 
@@ -372,6 +375,27 @@ def coef_args(cls):
         elif isinstance(d, tuple) and d and all(isinstance(x, float) for x in d):
             out[n] = d
     return out
+
+
+def t_rollout_reverse(n, include_init):
+    """reverse mode through rollout / repeat sees exactly the n steps that produce the returned states: a stepper whose (n+1)-th application
+    overflows (exp iterated from 1: e, 15.2, 3.8e6, inf) must still have a finite gradient equal to the chain-rule value"""
+    ex, jax, jnp = _ex()
+    f = lambda u: jnp.exp(u)
+    u0 = jnp.asarray([1.0])
+    traj = ex.rollout(f, n, include_init=include_init)(u0)
+    if not bool(jnp.all(jnp.isfinite(traj))):
+        return False, f"trajectory itself is not finite: {traj}"
+    g = jax.grad(lambda u: jnp.sum(ex.rollout(f, n, include_init=include_init)(u)))(u0)
+    gr = jax.grad(lambda u: jnp.sum(ex.repeat(f, n)(u)))(u0)
+    states, d, tot = [1.0], 1.0, (1.0 if include_init else 0.0)
+    for _ in range(n):
+        states.append(float(np.exp(states[-1]))); d *= states[-1]; tot += d
+    if not (bool(jnp.all(jnp.isfinite(g))) and abs(float(g[0]) - tot) <= 1e-10 * abs(tot)):
+        return False, f"grad of sum(rollout(exp, {n}, include_init={include_init})) is {float(g[0])}, chain rule gives {tot}"
+    if not (bool(jnp.all(jnp.isfinite(gr))) and abs(float(gr[0]) - d) <= 1e-10 * abs(d)):
+        return False, f"grad of repeat(exp, {n}) is {float(gr[0])}, chain rule gives {d}"
+    return True, ""
 
 
 def t_param(cls, D, N, order, wrap, seed, kw=None, L=None, only=None, full=True, state="generic"):
@@ -533,7 +557,7 @@ def t_scalar_coef_traceable(cls, arg, D):
     return True, f"{cls}({arg}=traced scalar) D={D}"
 
 
-TESTS = dict(state=t_state, param=t_param, scalar_coef_traceable=t_scalar_coef_traceable)
+TESTS = dict(rollout_reverse=t_rollout_reverse, state=t_state, param=t_param, scalar_coef_traceable=t_scalar_coef_traceable)
 
 # coefficient values at which the linear symbol vanishes exactly at some mode with a non-zero nonlinear term there
 ZERO_SYMBOL = [
@@ -628,6 +652,12 @@ def witness(ctx):
                 o = ords[1 + k % 4]           # order 0 has no ETDRK coefficients to differentiate
             special = (i + seed) % 7 == 0
             check("param", dict(cls=name, D=D, N=NS[D], order=o, wrap="rollout3" if (special and k % 3 == 0) else "step", seed=seed, full=special and k % 3 == 1))
+    # ---- reverse mode through the trajectory utilities, and d/d(dt) through ForcedStepper(RepeatedStepper(...))
+    for inc in (True, False):
+        check("rollout_reverse", dict(n=3, include_init=inc))
+    for j, name in enumerate(("Burgers", "Diffusion", "KortewegDeVries") if not deep else ("Burgers", "Diffusion", "KortewegDeVries", "KuramotoSivashinsky", "FisherKPP")):
+        if deep or j == seed % 3:
+            check("param", dict(cls=name, D=1, N=NS[1], order=2 if name != "Diffusion" else None, wrap="forced_repeated2", seed=seed, full=False, only=["dt", None]))
     # ---- scalar coefficients given as traced 0-d values (F8: the linear classes used to reject them)
     for name, a in SCALAR_OR_ARRAY:
         for D in ((1, 2, 3) if deep else (1 + (seed + len(a)) % 3,)):
